@@ -252,6 +252,8 @@ func runC18(r *Run) {
 		{Name: "three filters", Filters: []c18Filter{{Name: "a", Prefix: "pa", ClientID: "client-a"}, {Name: "b", Prefix: "pb", ClientID: "client-b", Redis: "r1/2"}, {Name: "c", Prefix: "pc", ClientID: "client-c", Redis: "r1/3", Chain: "chain-1"}}},
 		{Name: "two redis servers, only the first filter sets a session timeout", Filters: []c18Filter{{Name: "a", Prefix: "pa", ClientID: "client-a", Redis: "r1/0", Abs: 100}, {Name: "b", Prefix: "pb", ClientID: "client-b", Redis: "r2/0"}}},
 		{Name: "memory with a timeout, then redis without", Filters: []c18Filter{{Name: "a", Prefix: "pa", ClientID: "client-a", Abs: 100}, {Name: "b", Prefix: "pb", ClientID: "client-b", Redis: "r1/0"}}},
+		{Name: "default cookie name and a prefixed filter, shared memory store", Filters: []c18Filter{{Name: "a", Prefix: "", ClientID: "client-a"}, {Name: "b", Prefix: "pb", ClientID: "client-b"}}},
+		{Name: "default cookie name and a prefixed filter, one redis database", Filters: []c18Filter{{Name: "a", Prefix: "", ClientID: "client-a", Redis: "r1/0"}, {Name: "b", Prefix: "pb", ClientID: "client-b", Redis: "r1/0"}}},
 		{Name: "same prefix, disjoint stores", Filters: []c18Filter{{Name: "a", Prefix: "p", ClientID: "client-a", Redis: "r1/0"}, {Name: "b", Prefix: "p", ClientID: "client-b", Redis: "r2/0"}}},
 	}
 	ownKeySets(r, "[C18]")
@@ -314,6 +316,25 @@ func runC18(r *Run) {
 						if ttl := w.mrs[parts[0]].DB(db).TTL(sid); unique && ((fi.Abs == 0 && ttl != 0) || (fi.Abs > 0 && (ttl <= 0 || ttl > time.Duration(fi.Abs)*time.Second))) {
 							r.Violate("[C18] the sessions of a filter with a store of its own do not get that filter's own session timeouts (another filter's configuration leaks into its store)",
 								map[string]any{"layout": l, "filter": fi.Name, "absolute_session_timeout_s": fi.Abs, "expiry_of_its_session_key": ttl.String()})
+						}
+					}
+					// an honest browser: it sends filter i's cookie, under filter i's cookie name, to filter j (both live on one
+					// host). Filter j must not even look at it - its own cookie name is what separates its sessions from
+					// filter i's, shared store or not - so this is never the recorded shared-store finding.
+					if cookieNameFor(fi.Prefix) != cookieNameFor(fj.Prefix) {
+						resp := w.check(fj.Name, "/"+fj.Name+"/page", "theme=dark; "+cookieNameFor(fi.Prefix)+"="+sid)
+						r.Case(fmt.Sprintf("%s|%d>%d|unrenamed", l.Name, i, j))
+						r.Dist["cross-filter-unrenamed"]++
+						if resp.GetStatus().GetCode() == 0 {
+							r.Violate("[C18] a filter honoured a session presented under ANOTHER filter's cookie name (no cookie of its own name was sent): its own cookie prefix does not govern which sessions it accepts",
+								map[string]any{"layout": l, "session_created_at": fi.Name, "honoured_by": fj.Name, "cookie_sent": cookieNameFor(fi.Prefix) + "=<session id>", "answer": showResp(resp, nil)})
+						} else if loc, _ := hdrValue(resp.GetDeniedResponse().GetHeaders(), "location"); loc != "" && !strings.HasPrefix(loc, "https://idp-"+fj.Name+".") {
+							r.Violate("[C18] a filter redirected a client to another filter's provider", map[string]any{"layout": l, "from": fi.Name, "to": fj.Name, "location": loc})
+						}
+						// and it must have left filter i's session alone
+						if back := w.check(fi.Name, "/"+fi.Name+"/page", cookieNameFor(fi.Prefix)+"="+sid); back.GetStatus().GetCode() != 0 {
+							r.Violate("[C18] a request to one filter carrying another filter's cookie destroyed that other filter's session",
+								map[string]any{"layout": l, "session_of": fi.Name, "request_sent_to": fj.Name, "answer_of_owner_afterwards": showResp(back, nil)})
 						}
 					}
 					// the client renames its cookie towards filter j (and also replays the original name)
